@@ -20,8 +20,8 @@ PROPS = {
         "assumptions": ["Draft-6 validation spec section 6 frozen as keyword-keyed tables in the checker"],
     },
     "C02": {
-        "rules": ["K5", "T10", "T3", "N3", "G11", "T12", "T14", "T13", "D3", "G10", "R3"],
-        "decides": "schema text reaches emitted source only through repr()/checked emitters/identifiers; every "
+        "rules": ["K5", "T10", "T3", "N3", "G11", "T12", "T14", "T13", "D3", "G10", "R3", "T18", "K8"],
+        "decides": "class bodies read back only what they bound (declared properties stay out of the namespace); the parser keeps no identity-keyed memo of built classes; schema text reaches emitted source only through repr()/checked emitters/identifiers; every "
                    "annotation name is importable; import discovery walks every keyword position; class names "
                    "are guarded; declaration order obligations of C11.",
         "not_decided": "equality of the executed module with the parsed model; de-duplication correctness.",
@@ -128,7 +128,7 @@ PROPS = {
                        "third-party code).",
     },
     "C17": {
-        "rules": ["G10", "T2", "K6b", "P4", "T12", "G14"],
+        "rules": ["G10", "T2", "K6b", "P4", "T12", "G14", "G15"],
         "decides": "class-guard idiom gives exact-type, symmetric equality; equality inspects every configuration "
                    "attribute; Property equality covers every field; literal comparison inside equality.",
         "not_decided": "'serialize to the same JSON' for classes (names are deliberately not part of equality).",
@@ -142,7 +142,7 @@ PROPS = {
         "not_decided": "eval(repr(x)) == x.",
     },
     "C19": {
-        "rules": ["G7", "A1", "A2", "A3", "G3", "G2", "T5", "G13", "K4"],
+        "rules": ["G7", "A1", "A2", "A3", "G3", "G2", "T5", "G13", "K4", "P1", "P4"],
         "decides": "Maybe[] dropped only for required-or-defaulted; leaf annotations agree with the type validator "
                    "and construct; union/list annotations draw from every contributing element; the composition "
                    "result comes from an element the annotation drew from; an omitted property reaches its declared element (and so its default) under its JSON name (K4).",
